@@ -90,7 +90,33 @@ def assigned_names(stmts) -> set:
                 r = root(n.func.value)
                 if r:
                     out.add(r)
+            elif isinstance(n, ast.Call) and isinstance(n.func, ast.Name) and n.func.id == 'next' and n.args and isinstance(n.args[0], ast.Name):
+                out.add(n.args[0].id)       # next(it) advances the iterator
     return out
+
+
+_QCACHE = {}
+
+
+def _has_quant(f):
+    k = f.get_id()
+    hit = _QCACHE.get(k)
+    r = hit[0] if hit is not None else None
+    if r is None:
+        r = False
+        stack = [f]
+        seen = set()
+        while stack:
+            t = stack.pop()
+            if t.get_id() in seen:
+                continue
+            seen.add(t.get_id())
+            if z3.is_quantifier(t):
+                r = True
+                break
+            stack.extend(t.children())
+        _QCACHE[k] = (r, f)      # the term is kept alive so that its id cannot be reused by another term
+    return r
 
 
 class Engine:
@@ -114,6 +140,7 @@ class Engine:
         self.assumed_used = set()
         self.callee_used = set()      # repo callees whose PROVED contracts were used (modular reasoning)
         self.ghost_hits = set()
+        self.lenient_skips = []
 
     # ------------------------------------------------------------------------------------
     def _index_loops(self):
@@ -138,7 +165,8 @@ class Engine:
         s = self.solver
         s.push()
         try:
-            s.add(*st.pc)
+            # branch decisions use only the quantifier-free part of the path condition (fast; an undecided branch is simply forked)
+            s.add(*[f for f in st.pc if not _has_quant(f)])
             s.push()
             s.add(z3.Not(cond))
             r1 = s.check()
@@ -158,7 +186,7 @@ class Engine:
     def feasible(self, st):
         s = self.solver
         s.push()
-        s.add(*st.pc)
+        s.add(*[f for f in st.pc if not _has_quant(f)])
         r = s.check()
         s.pop()
         return r != z3.unsat
@@ -358,6 +386,19 @@ class Engine:
             return [(work, (RAISE, r.exc, stmt))]
         except Unsupported as u:
             del self.obligations[n_obl:]
+            if self.c.get('lenient') and isinstance(stmt, (ast.Assign, ast.AugAssign, ast.AnnAssign, ast.Expr)) \
+                    and not any(isinstance(n, (ast.Yield, ast.YieldFrom)) for n in ast.walk(stmt)):
+                # lenient contract (stated in the contract): a simple statement outside the modelled subset is over-approximated --
+                # every name it may bind or mutate becomes an unknown value; obligations that depend on such a value cannot be discharged
+                s2 = st.clone()
+                for n in assigned_names([stmt]):
+                    if n in self.c.get('lenient_protect', ()):
+                        self.unsupported.append((stmt.lineno, f'lenient skip would havoc protected name {n}: {u}'))
+                        return []
+                    s2.env[n] = VUnknown(f'{n}: havocked by unmodelled statement at L{stmt.lineno}')
+                self.lenient_skips.append((stmt.lineno, str(u)))
+                self.stmts_modelled.add(stmt.lineno)
+                return [(s2, (NORMAL,))]
             self.unsupported.append((stmt.lineno, str(u)))
             return []     # path abandoned (recorded: makes the function's verdict "undecided")
 
@@ -485,6 +526,12 @@ class Engine:
     def havoc(self, st, spec, names):
         decl = {n: parse_sort(s) for n, s in spec.get('locals', {}).items()}
         for n in sorted(names):
+            cur = st.env.get(n)
+            if isinstance(cur, VConst) and isinstance(cur.py, tuple) and cur.py and cur.py[0] == 'iterator':
+                pos = z3.Int(fresh_name(n + '_pos'))       # a one-shot iterator advanced in the loop: same sequence, arbitrary cursor
+                st.env[n] = VConst(('iterator', cur.py[1], cur.py[2], pos))
+                st.pc.append(z3.And(pos >= 0, pos <= cur.py[1]))
+                continue
             if n in decl:
                 st.env[n] = fresh_value(decl[n], n)
             elif n in st.env and not isinstance(st.env[n], (VUnknown, VConst, VNone)):
@@ -656,6 +703,10 @@ class Engine:
                 raise Unsupported('chain of != 2 iterables')
             (n0, g0), (n1, g1) = seqs
             return (n0 + n1, lambda i: ite(i < n0, g0(i), g1(i - n0)))
+        if isinstance(it, VUnknown) and self.c.get('lenient'):
+            n_ = z3.Int(fresh_name('unk_len'))      # lenient contract: an unmodelled iterable = unknown length, unknown elements
+            st.pc.append(n_ >= 0)
+            return (n_, lambda i: VUnknown('element of an unmodelled iterable'))
         raise Unsupported(f'iteration over {it!r}')
 
     # ---- generators ---------------------------------------------------------------------
@@ -665,6 +716,8 @@ class Engine:
 
     def emit_yield(self, st, val, stmt):
         c = self.c
+        if isinstance(val, VUnknown) and not c.get('at_yield') and not c.get('yield_sort'):
+            return [(st, (NORMAL,))]
         ysort = c.get('yield_sort')
         if ysort:
             val = coerce(val, parse_sort(ysort))
@@ -701,6 +754,8 @@ class Engine:
                     self._exec_stmt(st, s2)
             st.env.pop('sub', None)
             return [(st, (NORMAL,))]
+        if not self.c.get('at_yield') and not self.c.get('yield_update') and not self.c.get('yield_sort'):
+            return [(st, (NORMAL,))]      # no per-yield contract: the yielded values are unconstrained by this contract
         raise Unsupported('yield from of an unmodelled iterable')
 
     # ---- assignment --------------------------------------------------------------------
@@ -805,6 +860,9 @@ class Engine:
                 for sub in node.values:
                     t = self.ev_cond(sub, st)
                     terms.append(t)
+                    ts_ = z3.simplify(t)
+                    if (isinstance(node.op, ast.And) and z3.is_false(ts_)) or (isinstance(node.op, ast.Or) and z3.is_true(ts_)):
+                        break      # short circuit: the remaining operands are not evaluated by Python either
                     toks.append(self.push_guard(st, t if isinstance(node.op, ast.And) else z3.Not(t)))
             finally:
                 self.pop_guards(st, toks)
@@ -1111,6 +1169,18 @@ class Engine:
                 ast.fix_missing_locations(fake)
                 return self.menv.apply_contract(pk, fake, self, st, recv=base, args=[])
             raise Unsupported(f'record {base.name} has no modelled field {a}')
+        if isinstance(base, VOpt) and a == '__class__':
+            fkey = ('cls-of-opt', node.lineno, node.col_offset)
+            d = self.decide(st, base.isnone, fkey)
+            if d is None:
+                raise ForkReq(base.isnone, fkey)
+            if d is True:
+                return VConst(('builtin', 'NoneType'))
+            st.env['$tmp'] = base.val
+            try:
+                return self.ev(ast.Attribute(value=ast.Name(id='$tmp', ctx=ast.Load()), attr=a, ctx=ast.Load(), lineno=node.lineno, col_offset=node.col_offset), st)
+            finally:
+                st.env.pop('$tmp', None)
         if isinstance(base, VOpt) and not st.spec:
             self.oblige(st, z3.Not(base.isnone), f'no-AttributeError-None@L{node.lineno}', 'safety', node)
             tmp = ast.Attribute(value=ast.Name(id='$tmp', ctx=ast.Load()), attr=a, ctx=ast.Load(), lineno=node.lineno, col_offset=0)
